@@ -1138,9 +1138,12 @@ function runWorld(job) {
       // attribution: by the update kinds that ran in this flush
       const hasFast = [...kinds].some((k) => k.startsWith('fast'))
       const hasTree = [...kinds].some((k) => k.startsWith('tree'))
-      const prop = hasFast && !hasTree ? 'C07' : 'C06'
       res.locus = locusOf(root, fr.root)
-      violation(prop, hasFast && !hasTree ? 'fast_path_stale' : hasFast ? 'mixed_path_stale' : 'tree_path_stale', `${label}: first difference at ${res.locus.join(' > ')}; live tree differs from a fresh creation with the same data (update kinds: ${[...kinds].join(',')})\n${classifyMismatch(liveS, fr.s)}\n data: ${enc(curD()).slice(0, 600)}`)
+      // a model listener that holds another path than a fresh creation registers is C11's matter
+      // (its history-dependent clause) unless only fast-path updaters ran
+      const onlyModelPath = res.locus.length && res.locus[res.locus.length - 1] === '@model'
+      const prop = hasFast && !hasTree ? 'C07' : onlyModelPath ? 'C11' : 'C06'
+      violation(prop, hasFast && !hasTree ? 'fast_path_stale' : onlyModelPath ? 'live_listener_path_stale' : hasFast ? 'mixed_path_stale' : 'tree_path_stale', `${label}: first difference at ${res.locus.join(' > ')}; live tree differs from a fresh creation with the same data (update kinds: ${[...kinds].join(',')})\n${classifyMismatch(liveS, fr.s)}\n data: ${enc(curD()).slice(0, 600)}`)
       ended = 'mismatch'
       return
     }
